@@ -44,7 +44,8 @@ Archives(r, c, r2) ==
          LET m == Cardinality({x \in PathPrefixes(p) : Exists(r, x)}) - 1   \* longest existing prefix
          IN [i \in 1..(Len(p) - m) |-> <<P("CREATE", SubSeq(p, 1, m + i), SubSeq(p, 1, m + i), FALSE, DirNode)>>]
     [] c.op = "Create" ->
-         IF Exists(r, p) THEN << <<P("UPDATE", p, p, TRUE, r2[p])>> >>
+         IF Exists(r, p) THEN (IF r[p].content = <<>> THEN << >>      \* nothing to truncate
+                               ELSE << <<P("UPDATE", p, p, TRUE, r2[p])>> >>)
                          ELSE << <<P("CREATE", p, p, FALSE, FileNode(<<>>))>> >>
     [] c.op = "WriteFile" ->
          IF Exists(r, p) THEN << <<P("UPDATE", p, p, TRUE, r2[p])>> >>
